@@ -102,12 +102,27 @@ func (x *Exec) workflowPtr(name string) types.Type {
 
 // iterFacts: what the rule assumes about item k of the walk of p (see the header comment).
 func (x *Exec) iterFacts(st *State, p, k *Term) *Term {
-	n := x.walkLen(st, p)
-	obj := x.walkObj(st, p, k)
-	par := x.walkParent(st, p, k)
+	return x.iterFactsShape(x.walkShape(st), p, k)
+}
+
+// walkAxiom: the iter rule's facts for every item of every walk, as one quantified axiom (needed where contracts speak
+// about wobj(p, k) outside a walk loop).
+func (x *Exec) walkAxiom() *Term {
+	declareSort(sortShape)
+	s := BoundVar("q_shape", sortShape)
+	p := BoundVar("q_wp", "Int")
+	k := BoundVar("q_wk", "Int")
+	n := UF("walkLen", "Int", s, p)
+	return Forall([]*Term{s, p, k}, [][]*Term{{UF("walkObj", sortIface, s, p, k)}}, Implies(And(Ge(k, Int(0)), Lt(k, n)), x.iterFactsShape(s, p, k)))
+}
+
+func (x *Exec) iterFactsShape(shape, p, k *Term) *Term {
+	n := UF("walkLen", "Int", shape, p)
+	obj := UF("walkObj", sortIface, shape, p, k)
+	par := UF("walkParent", sortIface, shape, p, k)
 	tag := func(t *Term, name string) *Term { return Eq(Acc(t, 0), typeTag(x.workflowPtr(name))) }
 	planT := x.workflowPtr("Plan")
-	first := x.walkObj(st, p, Int(0))
+	first := UF("walkObj", sortIface, shape, p, Int(0))
 	return And(
 		Ge(n, Int(1)),
 		Eq(first, Mk(sortIface, typeTag(planT), p)),
@@ -134,6 +149,40 @@ var iterPreSrc = []string{
 
 var iterPreExprs []*Expr
 
+// When every node of the tree is a non-nil object with a State (what a vault's Read guarantees: macro storedPlan in
+// /verif/spec/storage.spec), so is every item of the walk. A consequence of the fold that defines walkTrace; assumed.
+var iterStoredExpr *Expr
+
+func (x *Exec) iterStoredFacts(st *State, p *Term, pElem types.Type, pkg *types.Package, k *Term) *Term {
+	if x.specs.macros["storedPlan"] == nil {
+		return True
+	}
+	if iterStoredExpr == nil {
+		iterStoredExpr = parseExprString("storedPlan(p)")
+	}
+	env := &SpecEnv{x: x, vars: map[string]SVal{"p": {T: p, GT: pElem}}, st: st, old: st, pkg: pkg, lets: map[string]*Expr{}}
+	stored := env.boolean(iterStoredExpr)
+	obj := x.walkObj(st, p, k)
+	cs := []*Term{Not(Eq(Acc(obj, 1), Int(0)))}
+	wf := x.w.pkgByName("workflow", nil)
+	for _, n := range []string{"Plan", "Checks", "Block", "Sequence", "Action"} {
+		t := wf.Scope().Lookup(n).Type()
+		su := t.Underlying().(*types.Struct)
+		key, hs := fieldHeapKey(t, fieldIndex(su, "State"))
+		cs = append(cs, Implies(Eq(Acc(obj, 0), typeTag(types.NewPointer(t))), Not(Eq(Select(st.H(key, hs), Acc(obj, 1)), Int(0)))))
+	}
+	out := Implies(stored, And(cs...))
+	if x.specs.macros["noNilPlan"] != nil {
+		if iterNoNilExpr == nil {
+			iterNoNilExpr = parseExprString("noNilPlan(p)")
+		}
+		out = And(out, Implies(env.boolean(iterNoNilExpr), Not(Eq(Acc(obj, 1), Int(0)))))
+	}
+	return out
+}
+
+var iterNoNilExpr *Expr
+
 func parseExprString(src string) *Expr {
 	toks, err := lex(src, "<rule>", 1)
 	if err != nil {
@@ -148,7 +197,7 @@ func parseExprString(src string) *Expr {
 }
 
 func (x *Exec) ruleIterWalk(fr *Frame, st *State, ins ssa.Instruction, callee *ssa.Function, args []Value, clo *Closure, site string) Value {
-	x.assumed["iter rule: `for item := range walk.Plan(p)` enumerates walkObj(shape, p, 0..walkLen-1) in order and stops after the first false (what C19 proves of walk.Plan$1); assumed of the enumeration: item 0 is the plan, every item is a *Plan, *Checks, *Block, *Sequence or *Action, only actions may be nil pointers, the last chain element of an action is its *Checks or *Sequence, of a sequence its *Block, of a block the plan"] = true
+	x.assumed["iter rule: `for item := range walk.Plan(p)` enumerates walkObj(shape, p, 0..walkLen-1) in order and stops after the first false (what C19 proves of walk.Plan$1); assumed of the enumeration: item 0 is the plan, every item is a *Plan, *Checks, *Block, *Sequence or *Action, only actions may be nil pointers (and none is when the tree holds no nil node; with a State on every node - what a vault's Read returns - every item has a State), the last chain element of an action is its *Checks or *Sequence, of a sequence its *Block, of a block the plan"] = true
 	if clo == nil || len(clo.Binds) != 1 || len(callee.FreeVars) != 1 {
 		unsup("iter rule: the iterator is not a syntactically known walk.Plan(p) value")
 	}
@@ -227,6 +276,7 @@ func (x *Exec) ruleIterWalk(fr *Frame, st *State, ins ssa.Instruction, callee *s
 		}
 		return fmt.Sprintf("iter%d.%d", n, i+1)
 	}
+	x.assume(st, x.iterFacts(st, p, Int(0)))
 	for i, c := range invs {
 		x.oblige(st, "inv", invName(i, c), "init", evalInv(st, c, Int(0)), "walk-loop invariant holds before the first item")
 	}
@@ -288,6 +338,7 @@ func (x *Exec) ruleIterWalk(fr *Frame, st *State, ins ssa.Instruction, callee *s
 	k := Fresh("iterk", "Int")
 	x.assumePC(it, And(Ge(k, Int(0)), Lt(k, wlen)))
 	x.assume(it, x.iterFacts(entryShape, p, k))
+	x.assume(it, x.iterStoredFacts(it, p, pElem, callee.Pkg.Pkg, k))
 	assumeInv(it, k)
 	r := x.callFunc(fr, it, ins, bodyFn, []Value{mkItem(it, k)}, body.Clo, site+".iter")
 	var outs []*State
